@@ -239,4 +239,10 @@ def affine(t, atomize=None, depth=0):
         ap = access_path(t)
         if ap is not None:
             return Aff(0, {ap: 1})
-    return Aff(0, {("opaque", repr(t)[:200]): 1})
+    r_ = repr(t)
+    if len(r_) <= 200:
+        return Aff(0, {("opaque", r_): 1})
+    # long terms: the readable prefix plus a digest of the whole, so that two different reads behind the same long cursor expression
+    # (three `read_u8` of one inlined helper) stay different atoms
+    import hashlib
+    return Aff(0, {("opaque", r_[:200], hashlib.sha1(r_.encode()).hexdigest()[:10]): 1})
